@@ -62,8 +62,77 @@ def _mat(x):
     return np.array(x.get_matrix(), dtype=complex)
 
 
+def _truth_matrix(terms, n):
+    """the denoted matrix from explicit Kronecker products (no library code)"""
+    import numpy as np
+    P = {"I": np.eye(2, dtype=complex), "X": np.array([[0, 1], [1, 0]], dtype=complex),
+         "Y": np.array([[0, -1j], [1j, 0]], dtype=complex), "Z": np.array([[1, 0], [0, -1]], dtype=complex)}
+    M = np.zeros((2 ** n, 2 ** n), dtype=complex)
+    for a, b, p in terms:
+        K = np.eye(1, dtype=complex)
+        for ch in p:
+            K = np.kron(K, P[ch])
+        M = M + complex(a, b) * K
+    return M
+
+
+def impl_history(case):
+    """ONE PauliStringLinear object: observed, edited in place (+=, item assignment), observed again; after every step every
+    observation must denote the matrix the object denotes now (tracked independently with numpy)"""
+    import numpy as np
+    n = case["n"]
+    obj = _mk(case["a"], case.get("route", "list"))
+    M = _truth_matrix(case["a"], n)
+    steps_out = []
+    def observe(which):
+        o = {}
+        for w in which:
+            try:
+                if w == "matrix": o[w] = bool(np.array_equal(_mat(obj), M))
+                elif w == "simplify":
+                    r = obj.simplify(); o[w] = bool(np.array_equal(_mat(r), M)) if hasattr(r, "get_matrix") else "type:" + type(r).__name__
+                elif w == "str": o[w] = str(obj)
+                elif w == "trace": o[w] = bool(complex(obj.trace()) == complex(np.trace(M)))
+                elif w == "is_zero": o[w] = bool(obj.is_zero()) == bool(not M.any())
+                elif w == "herm": o[w] = bool(np.array_equal(_mat(obj.h), M.conj().T))
+                elif w == "eq_same": o[w] = bool(obj == _mk(case["_terms_now"]))
+                elif w == "eq_other": o[w] = bool(obj == _mk(case["_other"]))
+                elif w == "scale": o[w] = bool(np.array_equal(_mat(obj * 2), 2 * M))
+                elif w == "square": o[w] = bool(np.array_equal(_mat(obj @ obj), M @ M))
+            except Exception as e:  # noqa
+                o[w] = "!" + type(e).__name__ + ":" + str(e)[:60]
+        return o
+    terms_now = [list(t) for t in case["a"]]
+    for st in case["steps"]:
+        rec = {"step": st}
+        try:
+            if st[0] == "obs":
+                pass
+            elif st[0] == "iadd":
+                obj += _mk(st[1]); M = M + _truth_matrix(st[1], n); terms_now = terms_now + [list(t) for t in st[1]]
+            elif st[0] == "setitem":
+                i = st[1] % max(1, len(obj))
+                c_old, p_old = obj[i]
+                obj[i] = (complex(st[2][0], st[2][1]), __import__("paulie").PauliString(pauli_str=st[2][2]))
+                old_t = [float(complex(c_old).real), float(complex(c_old).imag), str(p_old)]
+                M = M - _truth_matrix([old_t], n) + _truth_matrix([st[2]], n)
+                terms_now = terms_now + [[-old_t[0], -old_t[1], old_t[2]], list(st[2])]
+        except Exception as e:  # noqa
+            rec["exc"] = "!" + type(e).__name__ + ":" + str(e)[:80]
+        # a fresh object denoting the same matrix, and one denoting another matrix, for ==
+        case["_terms_now"] = terms_now
+        case["_other"] = case["_terms_now"] + [[1, 0, "Z" * n]]
+        rec["truth_changed_by_other"] = True
+        rec["obs"] = observe(st[-1] if st[0] == "obs" else case["after"])
+        rec["truth"] = [[float(z.real), float(z.imag)] for z in M.flatten().tolist()]
+        steps_out.append(rec)
+    return {"steps": steps_out}
+
+
 def impl(case):
     import numpy as np
+    if case.get("op") == "history":
+        return impl_history(case)
     a_t, b_t, s = case["a"], case["b"], complex(*case["s"])
     _ROUTE[0] = case.get("route", "list")
     out = {"route": _ROUTE[0]}
@@ -264,9 +333,57 @@ def main():
             nt.add((wire(c["a"]), wire(c["b"])))
         if bad:
             ck.fail(None, "a=%s b=%s: %s" % (wire(c["a"]), wire(c["b"]), "; ".join(bad)[:700]), {"case": c, "implementation": r, "differences": bad})
-    ck.cov["evaluations"] = len(cases)
+    # ---- one object: observe, edit in place, observe again ----
+    OBS = ["matrix", "simplify", "str", "trace", "is_zero", "herm", "eq_same", "eq_other", "scale", "square"]
+    hist = []
+    for _ in range(400 if ck.quick else 4000):
+        n = ck.rng.randint(1, 3)
+        a = rand_lin(ck.rng, n, allow_empty=False)
+        steps = []
+        for _k in range(ck.rng.randint(2, 5)):
+            r = ck.rng.random()
+            if r < 0.45:
+                steps.append(["obs", ck.rng.sample(OBS, ck.rng.randint(1, 4))])
+            elif r < 0.85:
+                steps.append(["iadd", rand_lin(ck.rng, n, allow_empty=False)])
+            else:
+                steps.append(["setitem", ck.rng.randint(0, 5), [ck.rng.randint(-3, 3), ck.rng.randint(-2, 2), G.uniform(ck.rng, n)]])
+        hist.append({"op": "history", "a": a, "n": n, "steps": steps, "after": OBS, "route": ck.rng.choice(["list", "objects", "copy"])})
+    hres = ck.impl("c12", hist, per_case_s=60)
+    stats["history_steps"] = 0
+    for c, r in zip(hist, hres):
+        if "exc" in r:
+            ck.fail(None, "history on one linear combination raised %s" % r["exc"], {"case": c, "result": r}); continue
+        for k, st in enumerate(r["steps"]):
+            stats["history_steps"] += 1
+            bad = []
+            if "exc" in st:
+                bad.append("the edit raised %s" % st["exc"])
+            M = {i: complex(*z) for i, z in enumerate(st["truth"])}
+            for w, v in st["obs"].items():
+                if w == "str":
+                    try:
+                        pd = parse_printed(v)
+                        import itertools
+                        from harness.c12 import _truth_matrix
+                        got = _truth_matrix([[z.real, z.imag, p] for p, z in pd.items()], c["n"]).flatten().tolist()
+                        if any(abs(got[i] - M[i]) > 1e-9 for i in M):
+                            bad.append("str() = %r no longer denotes the matrix of the object" % v)
+                    except Exception as e:  # noqa
+                        bad.append("printed form %r not understood (%s)" % (v, e))
+                elif w == "eq_other":
+                    if v is not False:
+                        bad.append("== with a combination denoting another matrix gives %s" % v)
+                elif v is not True:
+                    bad.append("%s after the edits: %s" % (w, v))
+            if bad:
+                ck.fail(None, "one object a=%s after steps %s: %s" % (wire(c["a"]), c["steps"][:k + 1], "; ".join(bad)[:600]),
+                        {"case": dict(c, steps=c["steps"][:k + 1]), "implementation": st, "differences": bad})
+                break
+    ck.cov["evaluations"] = len(cases) + stats["history_steps"]
     ck.cov["distinct_nontrivial"] = len(nt)
-    ck.cov["rule"] = ("term lists with Gaussian-integer coefficients in [-3,3]^2, repeated strings, zero coefficients, cancelling pairs, empty lists, aliased operands (a@a, a+a, a==a on one object), n<=4; "
+    ck.cov["rule"] = ("ONE object observed (matrix, simplify, str, trace, is_zero, .h, ==, scaling, square), edited in place (+=, item assignment) and observed again, every observation against the independently tracked numpy matrix; "
+                      "term lists with Gaussian-integer coefficients in [-3,3]^2, repeated strings, zero coefficients, cancelling pairs, empty lists, aliased operands (a@a, a+a, a==a on one object), n<=4; "
                       "@, +, scalar *, .h, simplify, trace, is_zero, == as term dictionaries vs Model/Linear.v; for n<=3 the implementation's own numpy matrices checked against the property's clauses; "
                       "str() parsed back; non-trivial = both operands have >=2 terms")
     ck.cov["samples"] = cases[3:6]
